@@ -120,8 +120,22 @@ Proof. unfold rune_start. intros ->. reflexivity. Qed.
 
 (* ---------- starting at a boundary / inside a code point ---------- *)
 Lemma starts_nonempty s : s <> [] ->
-  startsWithRuneBoundary s = negb (fst (decode_rune s) =? RuneError).
+  startsWithRuneBoundary s = negb (decode_failed (decode_rune s)).
 Proof. destruct s; [congruence|reflexivity]. Qed.
+
+(* a complete encoding of a valid code point is never taken for a decoding
+   failure: the failure value is (RuneError, 1), U+FFFD itself decodes with size 3 *)
+Lemma rune_not_failed r : valid_rune r = true -> decode_failed (r, rune_len r) = false.
+Proof.
+  intros V. destruct (enc_facts_of r V) as [b0 cs E D _ _ _ A _].
+  unfold decode_failed, rune_len. rewrite E. cbn [fst snd].
+  destruct cs as [|c cs'].
+  - cbn [is_nil] in A. unfold decode_rune in D. rewrite A in D. inversion D; subst.
+    apply N.ltb_lt in A.
+    replace (r =? RuneError) with false by (symmetry; apply N.eqb_neq; unfold RuneError; lia).
+    reflexivity.
+  - cbn [length Nat.eqb]. apply andb_false_r.
+Qed.
 
 Lemma decode_at_rune r rest : valid_rune r = true ->
   decode_rune (encode_rune r ++ rest) = (r, rune_len r).
@@ -145,7 +159,7 @@ Qed.
 
 (* ---------- ending at a boundary / inside a code point ---------- *)
 Lemma ends_nonempty s : s <> [] ->
-  endsWithRuneBoundary s = negb (decode_last s =? RuneError).
+  endsWithRuneBoundary s = negb (decode_failed (decode_last s)).
 Proof. destruct s; [congruence|reflexivity]. Qed.
 
 Lemma app_cons_not_nil {A} (p : list A) x t : p ++ x :: t <> [].
@@ -160,28 +174,28 @@ Proof.
     destruct (IH rest' (b :: acc)) as [x Hx]. exists (x ++ [b]). rewrite Hx, <- app_assoc. reflexivity.
 Qed.
 
-Lemma ends_at_rune pre r : valid_rune r = true -> r <> RuneError ->
+Lemma ends_at_rune pre r : valid_rune r = true ->
   endsWithRuneBoundary (pre ++ encode_rune r) = true.
 Proof.
-  intros V NE. destruct (enc_facts_of r V) as [b0 cs E D S C L A _].
-  rewrite E. rewrite ends_nonempty by apply app_cons_not_nil.
-  assert ((r =? RuneError) = false) as NEb by (apply N.eqb_neq; exact NE).
+  intros V. pose proof (rune_not_failed r V) as NF. unfold rune_len in NF.
+  destruct (enc_facts_of r V) as [b0 cs E D S C L A _].
+  rewrite E in *. rewrite ends_nonempty by apply app_cons_not_nil.
   unfold decode_last. rewrite rev_app_distr.
-  destruct cs as [|c1 [|c2 [|c3 [|c4 t]]]]; cbn [length] in L; try lia; cbn [is_nil] in A.
+  destruct cs as [|c1 [|c2 [|c3 [|c4 t]]]]; cbn [length] in L; try lia; cbn [is_nil] in A; cbn [length] in NF.
   - simpl rev. cbn [app]. unfold RuneSelf. rewrite A.
-    unfold decode_rune in D. rewrite A in D. inversion D; subst. rewrite NEb. reflexivity.
+    unfold decode_rune in D. rewrite A in D. inversion D; subst. rewrite NF. reflexivity.
   - cbn [forallb] in C. apply andb_true_iff in C as [C1 _].
     simpl rev. cbn [app]. unfold RuneSelf. rewrite (cont_ge_128 _ C1).
-    cbn [scan_back]. rewrite S. rewrite D. cbn [length]. rewrite Nat.eqb_refl, NEb. reflexivity.
+    cbn [scan_back]. rewrite S. rewrite D. cbn [length]. rewrite Nat.eqb_refl, NF. reflexivity.
   - cbn [forallb] in C. apply andb_true_iff in C as [C1 C]. apply andb_true_iff in C as [C2 _].
     simpl rev. cbn [app]. unfold RuneSelf. rewrite (cont_ge_128 _ C2).
     cbn [scan_back]. rewrite (cont_not_start _ C1), S. rewrite D. cbn [length].
-    rewrite Nat.eqb_refl, NEb. reflexivity.
+    rewrite Nat.eqb_refl, NF. reflexivity.
   - cbn [forallb] in C. apply andb_true_iff in C as [C1 C]. apply andb_true_iff in C as [C2 C].
     apply andb_true_iff in C as [C3 _].
     simpl rev. cbn [app]. unfold RuneSelf. rewrite (cont_ge_128 _ C3).
     cbn [scan_back]. rewrite (cont_not_start _ C2), (cont_not_start _ C1), S. rewrite D. cbn [length].
-    rewrite Nat.eqb_refl, NEb. reflexivity.
+    rewrite Nat.eqb_refl, NF. reflexivity.
 Qed.
 
 Lemma ends_inside_rune pre r j : valid_rune r = true -> (0 < j < rune_len r)%nat ->
@@ -251,13 +265,11 @@ Qed.
 Lemma is_boundary_nil k : is_boundary [] k = (k =? 0).
 Proof. unfold is_boundary, boundaries. cbn. apply orb_false_r. Qed.
 
-Definition good (rs : list N) : Prop := forall r, In r rs -> valid_rune r = true /\ r <> RuneError.
+(* every code point of the text is valid (U+FFFD included) *)
+Definition good (rs : list N) : Prop := forallb valid_rune rs = true.
 
-Lemma good_cons r rest : good (r :: rest) -> valid_rune r = true /\ r <> RuneError /\ good rest.
-Proof.
-  intros G. destruct (G r (or_introl eq_refl)) as [V NE]. split; [exact V|]. split; [exact NE|].
-  intros x Hx. apply G. right. exact Hx.
-Qed.
+Lemma good_cons r rest : good (r :: rest) -> valid_rune r = true /\ good rest.
+Proof. unfold good. cbn [forallb]. intros G. apply andb_true_iff in G. exact G. Qed.
 
 Lemma encode_all_cons r rest : encode_all (r :: rest) = encode_rune r ++ encode_all rest.
 Proof. reflexivity. Qed.
@@ -268,7 +280,7 @@ Lemma starts_iff_boundary rs : good rs -> forall k, (k <= length (encode_all rs)
 Proof.
   induction rs as [|r rest IH]; intros G k Hk.
   - cbn in Hk. assert (k = 0)%nat by lia. subst. reflexivity.
-  - destruct (good_cons _ _ G) as (V & NE & G').
+  - destruct (good_cons _ _ G) as (V & G').
     rewrite encode_all_cons in *. rewrite app_length in Hk. fold (rune_len r) in Hk.
     pose proof (rune_len_pos r V) as Lp.
     rewrite is_boundary_cons.
@@ -276,8 +288,7 @@ Proof.
     + cbn [skipn]. change (Z.of_nat 0 =? 0) with true. cbn [orb].
       destruct (enc_facts_of r V) as [b0 cs E _ _ _ _ _ _].
       rewrite starts_nonempty by (rewrite E; discriminate).
-      rewrite decode_at_rune by assumption. cbn [fst].
-      apply N.eqb_neq in NE. rewrite NE. reflexivity.
+      rewrite decode_at_rune by assumption. rewrite rune_not_failed by assumption. reflexivity.
     + replace (Z.of_nat k =? 0) with false by (symmetry; apply Z.eqb_neq; lia). cbn [orb].
       destruct (Nat.lt_ge_cases k (rune_len r)) as [Lt|Ge].
       * rewrite is_boundary_neg by lia.
@@ -295,7 +306,7 @@ Lemma ends_iff_boundary rs : good rs -> forall pre k, (0 < k <= length (encode_a
 Proof.
   induction rs as [|r rest IH]; intros G pre k Hk.
   - cbn in Hk. lia.
-  - destruct (good_cons _ _ G) as (V & NE & G').
+  - destruct (good_cons _ _ G) as (V & G').
     rewrite encode_all_cons in *. rewrite app_length in Hk. fold (rune_len r) in Hk.
     pose proof (rune_len_pos r V) as Lp.
     rewrite is_boundary_cons.
@@ -316,13 +327,13 @@ Qed.
 (* a single index must be the offset at which a code point starts *)
 Lemma decode_at_offset rs : good rs -> forall k, (k < length (encode_all rs))%nat ->
   match rune_at rs (Z.of_nat k) with
-  | Some r => decode_rune (skipn k (encode_all rs)) = (r, rune_len r) /\ r <> RuneError
+  | Some r => decode_rune (skipn k (encode_all rs)) = (r, rune_len r) /\ valid_rune r = true
   | None => decode_rune (skipn k (encode_all rs)) = (RuneError, 1%nat)
   end.
 Proof.
   induction rs as [|r rest IH]; intros G k Hk.
   - cbn in Hk. lia.
-  - destruct (good_cons _ _ G) as (V & NE & G').
+  - destruct (good_cons _ _ G) as (V & G').
     rewrite encode_all_cons in *. rewrite app_length in Hk. fold (rune_len r) in Hk.
     pose proof (rune_len_pos r V) as Lp. cbn [rune_at].
     destruct (Nat.eq_dec k 0) as [->|Nz].
@@ -343,11 +354,11 @@ Proof.
         apply IH; [assumption|lia].
 Qed.
 
-(* ---------- the string boundary theorem (for texts without U+FFFD) ---------- *)
+(* ---------- the string boundary theorem (every valid UTF-8 text) ---------- *)
 Lemma zlen_nat {A} (l : list A) k : 0 <= k <= zlen l -> (Z.to_nat k <= length l)%nat.
 Proof. unfold zlen. lia. Qed.
 
-Theorem string_index_boundary_partial : forall rs raw,
+Theorem string_index_boundary : forall rs raw,
   good rs -> zlen (encode_all rs) <= MaxInt ->
   let s := encode_all rs in
   match ref_string_range rs s raw with
@@ -365,9 +376,9 @@ Proof.
     pose proof (decode_at_offset rs G (Z.to_nat k)) as D.
     rewrite Z2Nat.id in D by lia.
     destruct (rune_at rs k) as [r|].
-    + destruct D as [D NE]; [lia|]. rewrite D.
-      apply N.eqb_neq in NE. rewrite NE. reflexivity.
-    + rewrite D by lia. cbn. eexists. reflexivity.
+    + destruct D as [D Vr]; [lia|]. rewrite D. cbv zeta.
+      rewrite rune_not_failed by assumption. reflexivity.
+    + rewrite D by lia. eexists. reflexivity.
   - rewrite (to_ref_slice _ _ _ C). cbn [bind].
     destruct (ref_index_slice_range (zlen (encode_all rs)) raw lo hi) as [H1 H2]; [unfold zlen; lia|assumption|].
     unfold zlen in H2.
@@ -383,15 +394,6 @@ Proof.
   - destruct (to_ref_error _ C) as [e E]. rewrite E. eexists. reflexivity.
 Qed.
 
-(* the full statement fails for texts that contain U+FFFD *)
-Theorem string_index_boundary_refuted :
-  exists rs raw, forallb valid_rune rs = true /\
-    ref_string_range rs (encode_all rs) raw = Some (1, 4) /\
-    convertStringIndex raw (encode_all rs) = Err ENotBoundary.
-Proof.
-  exists [97; 65533; 98]%N, (IInt 1). vm_compute. repeat split; reflexivity.
-Qed.
-
 (* indexing and replacing in a string, as consequences *)
 Theorem index_string_ref : forall rs raw,
   good rs -> zlen (encode_all rs) <= MaxInt ->
@@ -401,7 +403,7 @@ Theorem index_string_ref : forall rs raw,
   | None => exists e, indexString s raw = Err e
   end.
 Proof.
-  intros rs raw G Hlen s. pose proof (string_index_boundary_partial rs raw G Hlen) as H.
+  intros rs raw G Hlen s. pose proof (string_index_boundary rs raw G Hlen) as H.
   cbv zeta in H. fold s in H. unfold indexString.
   destruct (ref_string_range rs s raw) as [[lo hi]|].
   - rewrite H. reflexivity.
@@ -417,7 +419,7 @@ Theorem assoc_string_frame : forall rs raw rp,
   | None => exists e, assocString s raw (Some rp) = Err e
   end.
 Proof.
-  intros rs raw rp G Hlen s. pose proof (string_index_boundary_partial rs raw G Hlen) as H.
+  intros rs raw rp G Hlen s. pose proof (string_index_boundary rs raw G Hlen) as H.
   cbv zeta in H. fold s in H. unfold assocString.
   destruct (ref_string_range rs s raw) as [[lo hi]|].
   - rewrite H. reflexivity.
